@@ -244,6 +244,8 @@ struct Pending {
     /// parameters after the same iteration on a fresh model restarted from the snapshot (bitwise)
     restart: Option<Vec<[Obs; 2]>>,
     class: String,
+    /// the update consumed gradients accumulated over several backward calls (then C10 is concerned too)
+    accumulated: bool,
 }
 
 #[derive(Default, Clone, Debug)]
@@ -281,6 +283,12 @@ struct TS {
     eval_iter: u64,
     /// class of the current iteration (configuration plus input kind)
     iclass: String,
+    /// the (input, target) pairs whose gradients have been accumulated since the last update
+    pairs: Vec<(Vec<usize>, Vec<f64>, Vec<usize>, Vec<f64>)>,
+    refs: Vec<Option<RefIter>>,
+    losses: Vec<f64>,
+    /// an evaluation forward after a backward: its input and real output (a further backward may follow)
+    eval_x: Option<(Vec<usize>, Vec<f64>, Vec<usize>, Vec<f64>)>,
 }
 
 fn build_layers<'a>(specs: &[LayerSpec], params: &Params, acts: &'a [Option<Activation>]) -> Vec<Box<dyn Layer + 'a>> {
@@ -304,8 +312,9 @@ fn cost_fn(c: CostKind) -> CostFunction {
     }
 }
 
-/// One complete iteration on a brand-new model whose parameters are set to `params` (F13).
-fn restart_iteration(specs: &[LayerSpec], cost: CostKind, lr: f64, params: &Params, frozen: &[[bool; 2]], x: (&[usize], &[f64]), target: (&[usize], &[f64])) -> Option<(f64, Vec<[Obs; 2]>)> {
+/// One complete iteration (one or more forward/backward pairs, then update) on a brand-new model
+/// whose parameters are set to `params` (F13).
+fn restart_iteration(specs: &[LayerSpec], cost: CostKind, lr: f64, params: &Params, frozen: &[[bool; 2]], pairs: &[(Vec<usize>, Vec<f64>, Vec<usize>, Vec<f64>)]) -> Option<(Vec<f64>, Vec<[Obs; 2]>)> {
     let r = catch_unwind(AssertUnwindSafe(|| {
         let acts: Vec<Option<Activation>> = specs.iter().map(|s| activation_of(spec_act(s))).collect();
         let mut layers = build_layers(specs, params, &acts);
@@ -319,12 +328,14 @@ fn restart_iteration(specs: &[LayerSpec], cost: CostKind, lr: f64, params: &Para
         }
         let gd = GradientDescent::new(lr as Float);
         let cf = cost_fn(cost);
-        let loss;
+        let mut losses = Vec::new();
         {
             let refs: Vec<&mut dyn Layer> = layers.iter_mut().map(|l| &mut **l as &mut dyn Layer).collect();
             let mut model = Model::new(refs, &gd, &cf);
-            let _ = model.forward(mk(x.0, x.1));
-            loss = model.backward(mk(target.0, target.1)) as f64;
+            for (xd, xv, td, tv) in pairs {
+                let _ = model.forward(mk(xd, xv));
+                losses.push(model.backward(mk(td, tv)) as f64);
+            }
             model.update();
         }
         let after: Vec<[Obs; 2]> = layers
@@ -334,7 +345,7 @@ fn restart_iteration(specs: &[LayerSpec], cost: CostKind, lr: f64, params: &Para
                 [Obs::of(p[0]), Obs::of(p[1])]
             })
             .collect();
-        (loss, after)
+        (losses, after)
     }));
     r.ok()
 }
@@ -365,6 +376,7 @@ impl Sim {
     /// Judges the pending update against the parameters now observed.
     fn judge_pending(&mut self, ts: &mut TS, now: &[[Obs; 2]], any_grad: bool) {
         if let Some(p) = ts.pending.take() {
+            let nviol = self.violations.len();
             if any_grad {
                 self.tviol("gradient_after_update", &p.class, format!("iteration {}: a parameter still holds a gradient after update", p.iter));
             }
@@ -402,6 +414,15 @@ impl Sim {
                         }
                     }
                 }
+            }
+            if p.accumulated {
+                // gradients accumulated over several backward passes: additivity across passes is C10's statement too
+                let extra: Vec<crate::sim::Violation> = self.violations[nviol..].iter().filter(|v| v.monitor == "step_value" || v.monitor == "restart_parameters").map(|v| {
+                    let mut x = v.clone();
+                    x.prop = "C10";
+                    x
+                }).collect();
+                self.violations.extend(extra);
             }
         }
     }
@@ -510,7 +531,7 @@ fn train_span(sim: &mut Sim, src: &mut dyn Source, rec: &mut Vec<Ev>, specs: &[L
     sim.train_first_layer = Some(specs[0].clone());
     sim.train_param_count = specs.len() * 2;
     sim.train_layer_count = specs.len();
-    let mut ts = TS { layers: specs.to_vec(), cost, lr, phase: Phase::Idle, iter: 0, x: None, target: None, before: None, before_handles_had_grad: false, pending: None, last_batch_dims: None, after_update: false, reference: None, class, out_dims_real: None, loss_real: None, target_dims: None, frozen: Vec::new(), eval_iter: 0, iclass: String::new() };
+    let mut ts = TS { layers: specs.to_vec(), cost, lr, phase: Phase::Idle, iter: 0, x: None, target: None, before: None, before_handles_had_grad: false, pending: None, last_batch_dims: None, after_update: false, reference: None, class, out_dims_real: None, loss_real: None, target_dims: None, frozen: Vec::new(), eval_iter: 0, iclass: String::new(), pairs: Vec::new(), refs: Vec::new(), losses: Vec::new(), eval_x: None };
     while !sim.dead {
         let ev = match src.next(sim) {
             Some(e) => e,
@@ -618,6 +639,9 @@ fn model_span(sim: &mut Sim, src: &mut dyn Source, rec: &mut Vec<Ev>, model: &mu
                     let r = catch_unwind(AssertUnwindSafe(|| model.forward(x)));
                     match r {
                         Ok(out) => {
+                            ts.eval_x = Some((dims.clone(), to_f64(&crate::world::to_float(vals)), out.dimensions().to_vec(), to_f64(out.values())));
+                            sim.train_out_dims = Some(out.dimensions().to_vec());
+                            sim.train_eval_pending = true;
                             ts.eval_iter += 1;
                             sim.model_output_iter = Some(1_000_000 + ts.eval_iter);
                             if *keep_output {
@@ -694,9 +718,12 @@ fn model_span(sim: &mut Sim, src: &mut dyn Source, rec: &mut Vec<Ev>, model: &mu
                     sim.fault("F9_iteration_with_frozen_parameter");
                 }
                 // reference output
-                let reference = None::<RefIter>;
-                ts.reference = reference;
                 ts.before = Some(pb);
+                ts.pairs.clear();
+                ts.refs.clear();
+                ts.losses.clear();
+                ts.eval_x = None;
+                sim.train_eval_pending = false;
                 ts.before_handles_had_grad = any_grad;
                 ts.x = Some((dims.clone(), xv));
                 ts.target = None;
@@ -714,11 +741,27 @@ fn model_span(sim: &mut Sim, src: &mut dyn Source, rec: &mut Vec<Ev>, model: &mu
                 end(sim, &StepOut::Done);
             }
             Ev::Bwd { dims, vals } => {
-                let ok = ts.phase == Phase::AfterFwd && ts.out_dims_real.as_ref().map(|o| o.0 == *dims && o.1.len() == vals.len()).unwrap_or(false);
+                // a backward follows a forward; after an evaluation forward it accumulates a further gradient
+                let accumulating = ts.phase == Phase::AfterBwd && ts.eval_x.is_some();
+                if accumulating {
+                    let e = ts.eval_x.clone().unwrap();
+                    ts.x = Some((e.0, e.1));
+                    ts.out_dims_real = Some((e.2, e.3));
+                }
+                let ok = (ts.phase == Phase::AfterFwd || accumulating) && ts.out_dims_real.as_ref().map(|o| o.0 == *dims && o.1.len() == vals.len()).unwrap_or(false);
                 if !ok {
                     skip(sim, &ev, "backward not legal here");
                     continue;
                 }
+                if accumulating {
+                    sim.fault("F4_gradient_accumulation_over_two_batches");
+                    let xr = ts.x.as_ref().map(|x| x.0.len()).unwrap_or(0);
+                    if matches!(ts.layers[0], LayerSpec::Conv { .. }) && xr >= 4 && !ts.iclass.contains("batched-conv-input") {
+                        ts.iclass = format!("{}|batched-conv-input", ts.iclass);
+                    }
+                }
+                ts.eval_x = None;
+                sim.train_eval_pending = false;
                 let (xd, xv) = ts.x.clone().unwrap();
                 let before = ts.before.clone().unwrap();
                 let tv = to_f64(&crate::world::to_float(vals));
@@ -761,7 +804,9 @@ fn model_span(sim: &mut Sim, src: &mut dyn Source, rec: &mut Vec<Ev>, model: &mu
                         }
                     }
                 }
-                ts.reference = reference;
+                ts.pairs.push((xd.clone(), xv.clone(), dims.clone(), tv.clone()));
+                ts.refs.push(reference);
+                ts.losses.push(loss);
                 ts.target = Some(tv);
                 ts.target_dims = Some(dims.clone());
                 ts.phase = Phase::AfterBwd;
@@ -783,36 +828,41 @@ fn model_span(sim: &mut Sim, src: &mut dyn Source, rec: &mut Vec<Ev>, model: &mu
                 }
                 sim.train.iterations += 1;
                 let before = ts.before.clone().unwrap();
-                let (xd, xv) = ts.x.clone().unwrap();
-                let tv = ts.target.clone().unwrap();
-                let td = ts.target_dims.clone().unwrap();
+                let accumulated = ts.pairs.len() >= 2;
                 // relational: the same iteration on a fresh model restarted from the snapshot (F13)
-                let restart = if sim.cfg.monitors { restart_iteration(&ts.layers, ts.cost, ts.lr, &before, &ts.frozen, (&xd, &xv), (&td, &tv)) } else { None };
+                let restart = if sim.cfg.monitors { restart_iteration(&ts.layers, ts.cost, ts.lr, &before, &ts.frozen, &ts.pairs) } else { None };
                 let mut restart_params = None;
                 if let Some((rl, rp)) = restart {
                     sim.fault("F13_restart_from_snapshot");
-                    if ts.before_handles_had_grad {
-                        // a leaked gradient makes the long-running model differ from a fresh one: that is the point
-                    }
-                    if Some(rl.to_bits()) != ts.loss_real.map(|l| l.to_bits()) {
-                        sim.tviol("restart_loss", &ts.iclass.clone(), format!("iteration {}: loss {} on the long-running model, {} on a fresh model restarted from the parameter snapshot", ts.iter, ts.loss_real.unwrap(), rl));
+                    let same = rl.len() == ts.losses.len() && rl.iter().zip(&ts.losses).all(|(a, b)| a.to_bits() == b.to_bits());
+                    if !same {
+                        sim.tviol("restart_loss", &ts.iclass.clone(), format!("iteration {}: losses {:?} on the long-running model, {:?} on a fresh model restarted from the parameter snapshot", ts.iter, ts.losses, rl));
                     }
                     restart_params = Some(rp);
                 }
-                // absolute: old - lr * gradient of the reference loss
+                // absolute: old - lr * (sum of the gradients of the reference losses since the last update)
                 let mut abs = None;
-                if let Some(rf) = &ts.reference {
-                    if rf.relu_margin >= 1e-6 {
+                if !ts.refs.is_empty() && ts.refs.iter().all(|r| r.is_some()) {
+                    let refs: Vec<&RefIter> = ts.refs.iter().map(|r| r.as_ref().unwrap()).collect();
+                    if refs.iter().all(|rf| rf.relu_margin >= 1e-6) {
                         let lrf = (ts.lr as Float) as f64;
                         let mut v = Vec::new();
                         for (li, l) in before.iter().enumerate() {
                             let mut pair: Vec<(Vec<f64>, Vec<f64>)> = Vec::new();
                             for pi in 0..2 {
-                                let (g, m) = &rf.grads[li][pi];
+                                let n = l[pi].1.len();
+                                let mut g = vec![0.0; n];
+                                let mut m = vec![0.0; n];
+                                for rf in &refs {
+                                    for j in 0..n {
+                                        g[j] += rf.grads[li][pi].0[j];
+                                        m[j] += rf.grads[li][pi].1[j];
+                                    }
+                                }
                                 let mmax = m.iter().fold(0.0f64, |a, b| a.max(*b));
                                 let fr = ts.frozen.get(li).map(|f| f[pi]).unwrap_or(false);
-                                let want: Vec<f64> = l[pi].1.iter().zip(g).map(|(o, gg)| if fr { *o } else { o - lrf * gg }).collect();
-                                let tol: Vec<f64> = l[pi].1.iter().zip(m).map(|(o, mm)| if fr { 0.0 } else { tol_k() * eps() * (o.abs() + lrf.abs() * (mm + mmax + 1.0)) + 1e-300 }).collect();
+                                let want: Vec<f64> = l[pi].1.iter().zip(&g).map(|(o, gg)| if fr { *o } else { o - lrf * gg }).collect();
+                                let tol: Vec<f64> = l[pi].1.iter().zip(&m).map(|(o, mm)| if fr { 0.0 } else { tol_k() * eps() * (o.abs() + lrf.abs() * (mm + mmax + 1.0)) + 1e-300 }).collect();
                                 pair.push((want, tol));
                             }
                             let b = pair.pop().unwrap();
@@ -829,7 +879,10 @@ fn model_span(sim: &mut Sim, src: &mut dyn Source, rec: &mut Vec<Ev>, model: &mu
                         sim.train.kink_guard += 1;
                     }
                 }
-                ts.pending = Some(Pending { iter: ts.iter, event: sim.event_index, abs, restart: restart_params, class: ts.iclass.clone() });
+                if accumulated {
+                    ts.iclass = format!("{}|accumulated-over-{}-backward-calls", ts.iclass, ts.pairs.len());
+                }
+                ts.pending = Some(Pending { iter: ts.iter, event: sim.event_index, abs, restart: restart_params, class: ts.iclass.clone(), accumulated });
                 ts.after_update = true;
                 ts.phase = Phase::Idle;
                 sim.train_phase = 2;
